@@ -4863,6 +4863,12 @@ impl<'a> SpanTotal<'a> {
 
         assert!(self.unit >= Unit::Day);
         let sign = relspan.span.get_sign_ranged();
+        // A zero span has no direction in which to find the unit that
+        // contains its end (the window below would be empty, and the
+        // fraction `0/0`). Its total is zero in every unit.
+        if sign == C(0) {
+            return Ok(0.0);
+        }
         let (relative_start, relative_end) = match relspan.kind {
             RelativeSpanKind::Civil { start, end } => {
                 let start = Relative::Civil(start);
